@@ -99,6 +99,7 @@ structure InvA (s : LState) : Prop where
   memFresh : ∀ e ∈ s.memory, e.1 < s.nextCell
   hFresh : ∀ h ∈ s.handles, h.cell < s.nextCell
   rootCons : ∀ h ∈ s.handles, h.parent = none → ∀ e ∈ s.memory, e.1 = h.cell → e.2 = h.call
+  noPins : s.pins = []
   flag : s.staleRootOk = false
 
 theorem invA_init : InvA {} := by
@@ -113,7 +114,7 @@ theorem InvA.mem_active {s : LState} (h : InvA s) {e : Nat × Nat} (he : e ∈ s
 /-- a root handle whose pointer can be upgraded was lent by a call that has not returned -/
 theorem InvA.root_alive_active {s : LState} (inv : InvA s) {hd : Handle} (hm : hd ∈ s.handles)
     (hp : hd.parent = none) (ha : s.alive hd = true) : s.active hd.call = true := by
-  simp only [LState.alive, hp, List.any_eq_true, beq_iff_eq] at ha
+  simp only [LState.alive, hp, inv.noPins, List.any_nil, Bool.or_false, List.any_eq_true, beq_iff_eq] at ha
   obtain ⟨e, he, heq⟩ := ha
   have := inv.rootCons hd hm hp e he heq
   rw [← this]
@@ -139,7 +140,7 @@ theorem roCheck_alive {s : LState} {h : Handle} (hc : roCheck s h = .ok ()) : s.
 
 /-- transfer of `InvA` to a state that differs in flags, values and the mutable part of handles -/
 theorem InvA.transfer {s s' : LState} (inv : InvA s) (hmem : s'.memory = s.memory) (hfr : s'.frames = s.frames)
-    (hnc : s.nextCell ≤ s'.nextCell) (hsub : ∀ h' ∈ s'.handles, (∃ h ∈ s.handles, SameCore h' h) ∨
+    (hpins : s'.pins = s.pins) (hnc : s.nextCell ≤ s'.nextCell) (hsub : ∀ h' ∈ s'.handles, (∃ h ∈ s.handles, SameCore h' h) ∨
       (h'.parent ≠ none ∧ h'.cell < s'.nextCell))
     (hflag : s'.staleRootOk = false) : InvA s' := by
   constructor
@@ -156,6 +157,7 @@ theorem InvA.transfer {s s' : LState} (inv : InvA s) (hmem : s'.memory = s.memor
     · rw [sc.2.1]
       exact inv.rootCons h hh (sc.2.2.1 ▸ hp) e he (sc.1 ▸ heq)
     · exact absurd hp hne
+  · rw [hpins]; exact inv.noPins
   · exact hflag
 
 theorem noteAccess_flag {s : LState} (inv : InvA s) {i : Nat} {hd : Handle} {m : Bool}
@@ -165,8 +167,11 @@ theorem noteAccess_flag {s : LState} (inv : InvA s) {i : Nat} {hd : Handle} {m :
   | none => simp [inv.root_alive_active hm hp ha]
   | some _ => simp
 
-theorem lstep_invA (pol : Policy) {s : LState} (inv : InvA s) (op : Op) : InvA (lstep pol s op).1 := by
+theorem lstep_invA (pol : Policy) {s : LState} (inv : InvA s) (op : Op) (hop : op.isThread = false) :
+    InvA (lstep pol s op).1 := by
   cases op with
+  | pinUse i c => cases hop
+  | unpinUse => cases hop
   | lend kinds =>
     simp only [lstep]
     split
@@ -199,6 +204,7 @@ theorem lstep_invA (pol : Policy) {s : LState} (inv : InvA s) (op : Op) : InvA (
         · have a := mem_mkMem he
           have b := mem_mkRoots hm
           rw [a.2.2, b.2.2.1]
+      · exact inv.noPins
       · exact inv.flag
   | endCall =>
     simp only [lstep]
@@ -231,6 +237,7 @@ theorem lstep_invA (pol : Policy) {s : LState} (inv : InvA s) (op : Op) : InvA (
       · intro h hm hp e he heq
         have : e ∈ s.memory.take (tagsOf fs).length := by rw [← hsame]; exact he
         exact inv.rootCons h hm hp e (List.mem_of_mem_take this) heq
+      · exact inv.noPins
       · exact inv.flag
   | copy i c =>
     simp only [lstep]
@@ -239,7 +246,7 @@ theorem lstep_invA (pol : Policy) {s : LState} (inv : InvA s) (op : Op) : InvA (
     · rename_i h hi
       split
       · exact inv
-      · refine inv.transfer rfl rfl (Nat.le_refl _) ?_ inv.flag
+      · refine inv.transfer rfl rfl rfl (Nat.le_refl _) ?_ inv.flag
         intro h' hm
         exact Or.inl (coreSub_set (x := { h with copies := h.copies ++ [h.nextCopy], nextCopy := h.nextCopy + 1 })
           hi ⟨rfl, rfl, rfl, rfl, rfl⟩ h' hm)
@@ -253,10 +260,10 @@ theorem lstep_invA (pol : Policy) {s : LState} (inv : InvA s) (op : Op) : InvA (
       · have hset : CoreSub (s.handles.set i { h with copies := h.copies.erase c }) s.handles :=
           coreSub_set (x := { h with copies := h.copies.erase c }) hi ⟨rfl, rfl, rfl, rfl, rfl⟩
         split
-        · refine inv.transfer rfl rfl (Nat.le_refl _) ?_ inv.flag
+        · refine inv.transfer rfl rfl rfl (Nat.le_refl _) ?_ inv.flag
           intro h' hm
           exact Or.inl (coreSub_trans (coreSub_release _ _) hset h' hm)
-        · refine inv.transfer rfl rfl (Nat.le_refl _) ?_ inv.flag
+        · refine inv.transfer rfl rfl rfl (Nat.le_refl _) ?_ inv.flag
           intro h' hm
           exact Or.inl (hset h' hm)
   | get i c =>
@@ -269,7 +276,7 @@ theorem lstep_invA (pol : Policy) {s : LState} (inv : InvA s) (op : Op) : InvA (
       · split
         · exact inv
         · rename_i hc
-          refine inv.transfer rfl rfl (Nat.le_refl _) (fun h' hm => Or.inl ⟨h', hm, SameCore.rfl' _⟩) ?_
+          refine inv.transfer rfl rfl rfl (Nat.le_refl _) (fun h' hm => Or.inl ⟨h', hm, SameCore.rfl' _⟩) ?_
           exact noteAccess_flag inv (List.mem_of_getElem? hi) (mutCheck_alive hc)
   | getro i c =>
     simp only [lstep]
@@ -281,7 +288,7 @@ theorem lstep_invA (pol : Policy) {s : LState} (inv : InvA s) (op : Op) : InvA (
       · split
         · exact inv
         · rename_i hc
-          refine inv.transfer rfl rfl (Nat.le_refl _) (fun h' hm => Or.inl ⟨h', hm, SameCore.rfl' _⟩) ?_
+          refine inv.transfer rfl rfl rfl (Nat.le_refl _) (fun h' hm => Or.inl ⟨h', hm, SameCore.rfl' _⟩) ?_
           exact noteAccess_flag inv (List.mem_of_getElem? hi) (roCheck_alive hc)
   | set i c v =>
     simp only [lstep]
@@ -293,7 +300,7 @@ theorem lstep_invA (pol : Policy) {s : LState} (inv : InvA s) (op : Op) : InvA (
       · split
         · exact inv
         · rename_i hc
-          refine inv.transfer rfl rfl (Nat.le_refl _) (fun h' hm => Or.inl ⟨h', hm, SameCore.rfl' _⟩) ?_
+          refine inv.transfer rfl rfl rfl (Nat.le_refl _) (fun h' hm => Or.inl ⟨h', hm, SameCore.rfl' _⟩) ?_
           exact noteAccess_flag (i := i) (m := true) inv (List.mem_of_getElem? hi) (mutCheck_alive hc)
   | derive i c k =>
     simp only [lstep]
@@ -307,7 +314,7 @@ theorem lstep_invA (pol : Policy) {s : LState} (inv : InvA s) (op : Op) : InvA (
         · split
           · exact inv
           · rename_i hc
-            refine inv.transfer rfl rfl (Nat.le_succ _) ?_ ?_
+            refine inv.transfer rfl rfl rfl (Nat.le_succ _) ?_ ?_
             · intro h' hm
               simp only [List.mem_append, List.mem_singleton] at hm
               rcases hm with hm | rfl
@@ -319,9 +326,13 @@ theorem lstep_invA (pol : Policy) {s : LState} (inv : InvA s) (op : Op) : InvA (
                 exact ⟨by simp, Nat.lt_succ_self _⟩
             · exact noteAccess_flag (i := i) (m := true) inv (List.mem_of_getElem? hi) (mutCheck_alive hc)
 
-theorem lrun_invA (pol : Policy) (ops : List Op) : ∀ {s : LState}, InvA s → InvA (lrun pol s ops) := by
+theorem lrun_invA (pol : Policy) (ops : List Op) (hst : singleThreaded ops = true) :
+    ∀ {s : LState}, InvA s → InvA (lrun pol s ops) := by
   induction ops with
   | nil => intro s h; exact h
-  | cons o rest ih => intro s h; exact ih (lstep_invA pol h o)
+  | cons o rest ih =>
+    intro s h
+    simp only [singleThreaded, List.all_cons, Bool.and_eq_true, Bool.not_eq_true'] at hst
+    exact ih (by simpa [singleThreaded] using hst.2) (lstep_invA pol h o hst.1)
 
 end SteelVerif.C20
